@@ -367,10 +367,12 @@ def merge_order(draw, sim: Sim, extras: bool = True) -> List[Dict[str, Any]]:
 
 @st.composite
 def sim_case(draw, o: Optional[Opts] = None, max_ranks: int = 2, same_steps: bool = True,
-             extras_trace_span: bool = False) -> Dict[str, Any]:
+             extras_trace_span: bool = False, nranks_choices: Optional[List[int]] = None) -> Dict[str, Any]:
     o = o or Opts()
     nranks = pick(draw, [1, 1, 1, 2, 2, 3][: 3 + max(0, max_ranks - 1) * 2][: 6]) if max_ranks > 1 else 1
     nranks = min(nranks, max_ranks)
+    if nranks_choices:
+        nranks = pick(draw, nranks_choices)
     epoch = pick(draw, EPOCHS)
     nsteps = pick(draw, o.steps)
     first_step = pick(draw, [0, 3, 100])
